@@ -819,7 +819,11 @@ class SqliteGitShaMap(GitShaMap):
         """
         for table in ("blobs", "commits", "trees"):
             for (sha,) in self.db.execute(f"select sha1 from {table}"):  # noqa: S608
-                yield sha.encode("ascii")
+                # SHAs are written as bytes (BLOBs); text_factory only affects
+                # values that were stored as TEXT (e.g. by older versions).
+                if isinstance(sha, str):
+                    sha = sha.encode("ascii")
+                yield sha
 
 
 class TdbCacheUpdater(CacheUpdater):
